@@ -258,5 +258,27 @@ func registry() map[string]PropSpec {
 		},
 		Assumptions: []string{"reflect.* over the engine heap; json.Marshal in the abstract JSON data model (marshal errors from MarshalJSON methods are propagated)"},
 	})
+	add(PropSpec{
+		ID: "C03",
+		Harnesses: []HSpec{
+			{Pkg: ".", Name: "c03_command", Quick: map[string]int{"cmdmodes": 6, "extras": 1}, Thorough: map[string]int{"cmdmodes": 6, "extras": 2}, Unwind: [2]int{64, 64}, Budget: [2]int{120, 1500}, Models: []string{"net/url.Parse=vpModelURLParse", "path.Join=vpModelPathJoin"},
+				What: "command step: every combination of key/id/identifier, label/name, command/commands (string or list, or both keys), up to two unknown extra keys with nested values of every scalar kind; bare list or mapping document: JSON data model of the marshalled pipeline is the documented normal form with every other key exactly once and unchanged"},
+			{Pkg: ".", Name: "c03_plugins", Quick: map[string]int{}, Unwind: [2]int{64, 64}, Models: []string{"net/url.Parse=vpModelURLParse", "path.Join=vpModelPathJoin"},
+				What: "plugins as list of strings / one-key maps / one mapping, config absent / {} / nested / any key order: ordered list of single-entry objects keyed by canonical source, empty configs null, configs unchanged at every depth"},
+			{Pkg: ".", Name: "c03_matrix", Quick: map[string]int{}, Unwind: [2]int{64, 64}, Models: []string{"net/url.Parse=vpModelURLParse", "path.Join=vpModelPathJoin"},
+				What: "matrix shorthands (list, setup list, named dimensions, adjustments with scalar or map `with`, extras): canonical shape, scalars become strings, nothing lost"},
+			{Pkg: ".", Name: "c03_cache_env", Quick: map[string]int{}, Unwind: [2]int{64, 64}, Models: []string{"net/url.Parse=vpModelURLParse", "path.Join=vpModelPathJoin"},
+				What: "cache shorthands (false, string, list, map with extras) and env scalars"},
+			{Pkg: ".", Name: "c03_kinds", Quick: map[string]int{}, Unwind: [2]int{64, 64}, Models: []string{"net/url.Parse=vpModelURLParse", "path.Join=vpModelPathJoin"},
+				What: "scalar and mapping wait/input/trigger/unknown steps, groups with aliases and children, and the pipeline level (env order and scalars, top-level extras, bare list)"},
+		},
+		Outside: []string{
+			"the YAML leg: yaml.v3 interprets the struct tags itself when emitting; byte-level rendering of either format",
+			"input syntax variants (block/flow, quoting, anchors, merges): gone once yaml.v3 has produced nodes; the resolver is C07",
+			"extra keys inside `signature` (a closed record written by this library, not authored input)",
+			"empty-string values of omitempty fields (key: \"\", label: \"\") and empty containers (plugins: [], env: {}): whether dropping them is data loss is not settled by the statement; left to the C09 fixpoint check",
+		},
+		Assumptions: []string{"reflect.* over the engine heap; encoding/json.Marshal in the abstract JSON data model (documented dispatch, real MarshalJSON methods executed); reflections.Fields/GetField/GetFieldTag by their documented contracts", "net/url.Parse and path.Join models as in C17"},
+	})
 	return r
 }
